@@ -16,7 +16,7 @@ from harness.checks.c04 import state_tuple
 
 RULE = ("For Hypothesis-drawn configurations and k, O = complete checkpoint after k batches (or no checkpoint), N = after k+1. "
         "(1) JSON back-end, real process death: a forked child runs the real save of N on top of O and dies (os._exit) at the "
-        "j-th line event of save_calibrator_state, for EVERY j; (2) byte-level: for every file that statement j changed, the "
+        "j-th line event executed inside the checkpointing module (save function and any helper / adapter it calls there), for EVERY j; (2) byte-level: for every file that statement j changed, the "
         "folder left by death j with that file cut to each prefix (every byte for small files / in the thorough tier, else "
         "128 evenly spaced offsets plus line boundaries); (3) SQLite: process death at every line event, and an exception "
         "raised at every line event of its save (sys.settrace). Oracle: a later restore/load raises, or equals O or N exactly; "
@@ -58,7 +58,7 @@ def die_at(j, fn, code_obj):
             return local
 
         def tracer(frame, event, arg):
-            return local if frame.f_code is code_obj else None
+            return local if frame.f_code.co_filename == code_obj.co_filename else None
 
         devnull = os.open(os.devnull, os.O_WRONLY)
         os.dup2(devnull, 1)
@@ -87,7 +87,7 @@ def raise_at(j, fn, code_obj):
         return local
 
     def tracer(frame, event, arg):
-        return local if frame.f_code is code_obj else None
+        return local if frame.f_code.co_filename == code_obj.co_filename else None
 
     sys.settrace(tracer)
     try:
